@@ -20,6 +20,7 @@ type cenv struct {
 	it0     *State // state at the loop header (step clauses)
 	pre     *State // state just before the loop was entered (loop clauses)
 	it0vars map[string]Val
+	prevars map[string]Val
 	qvars   map[string]Val // quantifier-bound variables (visible inside it0())
 	pkg     *types.Package
 	allocOld string // allocation counter at entry (fresh(x) <=> root(x) >= allocOld)
@@ -1065,6 +1066,18 @@ func (c *cenv) call(e *ast.CallExpr) Val {
 			}
 			c2 := *c
 			c2.st = c.pre
+			if c.prevars != nil {
+				c2.vars = map[string]Val{}
+				for k, v := range c.vars {
+					c2.vars[k] = v
+				}
+				for k, v := range c.prevars {
+					c2.vars[k] = v // loop-carried names denote their values at loop entry
+				}
+				for k, v := range c.qvars {
+					c2.vars[k] = v
+				}
+			}
 			v := c2.expr(e.Args[0])
 			if c2.err != nil {
 				c.err = c2.err
@@ -1258,6 +1271,10 @@ func (c *cenv) call(e *ast.CallExpr) Val {
 		case "samearray":
 			a, b := c.expr(e.Args[0]), c.expr(e.Args[1])
 			return bval(eq("(sarr "+a.T+")", "(sarr "+b.T+")"))
+		case "samestore":
+			// samestore(s, t): same backing array, offset and capacity (lengths may differ)
+			a, b := c.expr(e.Args[0]), c.expr(e.Args[1])
+			return bval(and(eq("(sarr "+a.T+")", "(sarr "+b.T+")"), eq("(soff "+a.T+")", "(soff "+b.T+")"), eq("(scap "+a.T+")", "(scap "+b.T+")")))
 		case "disjoint":
 			// disjoint(s, t): the backing storage of two slices does not overlap
 			a, b := c.expr(e.Args[0]), c.expr(e.Args[1])
